@@ -31,6 +31,7 @@ type c11AttrSet struct {
 	PadFit  int      `json:"pad_fit"` // if != 0: choose Pad so that the attribute block ends PadFit octets below (-: above) the single-route limit
 	NH      int      `json:"nh"`      // next hop index
 	LL      bool     `json:"ll"`      // add link-local next hop (v6 families)
+	LLIdx   int      `json:"ll_idx"`  // which link-local address (independent of the global next hop)
 	SameKey bool     `json:"same_key"` // force the batching hash of this set onto a shared value
 }
 
@@ -48,7 +49,9 @@ type c11Case struct {
 	ExtMsg  bool         `json:"ext_msg"`
 	Sets    []c11AttrSet `json:"sets"`
 	Changes []c11Change  `json:"changes"`
-	Bulk    int          `json:"bulk"` // additionally announce this many distinct v4 prefixes with set 0
+	Bulk    int          `json:"bulk"` // additionally announce this many distinct prefixes with set 0
+	BulkFam int          `json:"bulk_fam"`
+	BulkLen int          `json:"bulk_len"` // 0: uniform prefix length, 1: mixed lengths
 }
 
 func drawC11(t *rapid.T) c11Case {
@@ -61,7 +64,8 @@ func drawC11(t *rapid.T) c11Case {
 			MED:    int64(rapid.SampledFrom([]int{-1, 0, 10}).Draw(t, l+"med")),
 			Comms:  rapid.SampledFrom([]int{0, 0, 1, 3, 60}).Draw(t, l+"comms"),
 			NH:     rapid.IntRange(0, 2).Draw(t, l+"nh"),
-			LL:     rapid.IntRange(0, 3).Draw(t, l+"ll") == 0,
+			LL:     rapid.IntRange(0, 2).Draw(t, l+"ll") == 0,
+			LLIdx:  rapid.IntRange(0, 1).Draw(t, l+"llidx"),
 		}
 		n := rapid.SampledFrom([]int{0, 1, 2, 5, 40}).Draw(t, l+"aslen")
 		for j := 0; j < n; j++ {
@@ -77,6 +81,26 @@ func drawC11(t *rapid.T) c11Case {
 		s.SameKey = rapid.IntRange(0, 4).Draw(t, l+"samekey") == 0
 		c.Sets = append(c.Sets, s)
 	}
+	// near-twin sets: identical except for one next-hop detail, so that grouping keys are put to the test
+	switch rapid.IntRange(0, 5).Draw(t, "twin") {
+	case 0:
+		c.Sets[0].LL = true
+		tw := c.Sets[0]
+		tw.ASPath = append([]uint32(nil), tw.ASPath...)
+		tw.LLIdx = 1 - tw.LLIdx
+		c.Sets = append(c.Sets, tw)
+	case 1:
+		tw := c.Sets[0]
+		tw.ASPath = append([]uint32(nil), tw.ASPath...)
+		tw.NH = (tw.NH + 1) % 3
+		c.Sets = append(c.Sets, tw)
+	case 2:
+		tw := c.Sets[0]
+		tw.ASPath = append([]uint32(nil), tw.ASPath...)
+		tw.LL = !tw.LL
+		c.Sets = append(c.Sets, tw)
+	}
+	ns = len(c.Sets)
 	nc := rapid.IntRange(1, 40).Draw(t, "nchanges")
 	for i := 0; i < nc; i++ {
 		l := fmt.Sprintf("c%d", i)
@@ -90,6 +114,8 @@ func drawC11(t *rapid.T) c11Case {
 		}
 		c.Changes = append(c.Changes, ch)
 	}
+	c.BulkFam = rapid.SampledFrom([]int{0, 2, 2, 3}).Draw(t, "bulk_fam")
+	c.BulkLen = rapid.IntRange(0, 1).Draw(t, "bulk_len")
 	switch rapid.IntRange(0, 9).Draw(t, "bulkk") {
 	case 0:
 		c.Bulk = rapid.IntRange(500, 3000).Draw(t, "bulk")
@@ -119,8 +145,29 @@ func c11NLRI(fam, prefix int) bgp.NLRI {
 	}
 }
 
-func c11BulkNLRI(i int) bgp.NLRI {
-	n, _ := bgp.NewIPAddrPrefix(netip.PrefixFrom(netip.AddrFrom4([4]byte{172, byte(16 + i>>16), byte(i >> 8), byte(i)}), 32))
+func c11BulkNLRI(fam, i, mixed int) bgp.NLRI {
+	switch fam {
+	case 2:
+		bits := 64
+		if mixed == 1 {
+			bits = []int{64, 48, 56, 128, 40}[i%5]
+		}
+		p, _ := netip.AddrFrom16([16]byte{0x20, 0x01, 0x0d, 0xb8, byte(i >> 16), byte(i >> 8), byte(i), 0x10, 8: byte(i)}).Prefix(bits)
+		if bits < 56 {
+			p, _ = netip.AddrFrom16([16]byte{0x20, 0x01, byte(i >> 16), byte(i >> 8), byte(i)}).Prefix(bits)
+		}
+		n, _ := bgp.NewIPAddrPrefix(p)
+		return n
+	case 3:
+		n, _ := bgp.NewLabeledVPNIPAddrPrefix(netip.PrefixFrom(netip.AddrFrom4([4]byte{172, byte(16 + i>>16), byte(i >> 8), byte(i)}), 32), *bgp.NewMPLSLabelStack(uint32(16+i%1000)), bgp.NewRouteDistinguisherTwoOctetAS(65000, 1))
+		return n
+	}
+	bits := 32
+	if mixed == 1 {
+		bits = []int{32, 24, 16, 25, 8}[i%5]
+	}
+	p, _ := netip.AddrFrom4([4]byte{byte(11 + i%200), byte(i >> 16), byte(i >> 8), byte(i)}).Prefix(bits)
+	n, _ := bgp.NewIPAddrPrefix(p)
 	return n
 }
 
@@ -131,7 +178,7 @@ func c11NextHops(fam int, s c11AttrSet) []netip.Addr {
 	default:
 		nh := []netip.Addr{netip.AddrFrom16([16]byte{0x20, 0x01, 0x0d, 0xb8, 0xff, 15: byte(1 + s.NH)})}
 		if s.LL {
-			nh = append(nh, netip.AddrFrom16([16]byte{0xfe, 0x80, 15: byte(1 + s.NH)}))
+			nh = append(nh, netip.AddrFrom16([16]byte{0xfe, 0x80, 15: byte(1 + s.LLIdx)}))
 		}
 		return nh
 	}
@@ -326,8 +373,14 @@ func runC11(c c11Case, st *verifkit.Stats) *verifkit.Failure {
 		}
 		mk(ch.Fam, c11NLRI(ch.Fam, ch.Prefix), ch.ID, ch.Withdraw, c.Sets[ch.Set%len(c.Sets)])
 	}
+	bulkSeen := map[string]bool{}
 	for i := 0; i < c.Bulk; i++ {
-		mk(0, c11BulkNLRI(i), 1, false, c.Sets[0])
+		n := c11BulkNLRI(c.BulkFam, i, c.BulkLen)
+		if bulkSeen[n.String()] {
+			continue
+		}
+		bulkSeen[n.String()] = true
+		mk(c.BulkFam, n, 1, false, c.Sets[0])
 	}
 
 	// expected receiver state: apply the changes one at a time
